@@ -60,7 +60,7 @@ def gen(rng, tier, index):
         steps.append({"tag": f"_{k + 1}", "outcomes": outcomes, "any": k > 0 and rng.random() < 0.3})
         if not steps[-1]["any"] and rng.random() < 0.25:
             steps[-1]["func"] = True  # function-based app with mutable constructor arguments
-    writer = rng.choice(["seqs", "seqs", "json", "db"])
+    writer = rng.choice(["seqs", "seqs", "json", "db", "tabular", "seqs", "db", "json"])
     parallel = rng.random() < 0.75
     plan = {
         "engine": "c14",
@@ -147,8 +147,13 @@ def build_app(plan, data_store=None, with_writer=True):
             nxt = cls(st["tag"], dict(st["outcomes"]))
         app = nxt if app is None else app + nxt
         names.append(cls.__name__)
+    if plan["writer"] == "tabular":
+        nxt = va.seqs_to_table()
+        app = nxt if app is None else app + nxt
+        names.append("seqs_to_table")
     if with_writer:
         w = {"seqs": lambda: io_app.write_seqs(data_store, format="fasta"),
+             "tabular": lambda: io_app.write_tabular(data_store, format="tsv"),
              "json": lambda: io_app.write_json(data_store),
              "db": lambda: io_app.write_db(data_store)}[plan["writer"]]()
         app = app + w
@@ -161,7 +166,7 @@ def open_out(plan, path, mode):
 
     if plan["writer"] == "db":
         return open_data_store(f"{path}.sqlitedb", mode=mode)
-    suffix = {"seqs": "fasta", "json": "json"}[plan["writer"]]
+    suffix = {"seqs": "fasta", "json": "json", "tabular": "tsv"}[plan["writer"]]
     return open_data_store(path, suffix=suffix, mode=mode)
 
 
@@ -218,7 +223,7 @@ def record_view(ds, plan):
     """{key: (kind, content)} as stored"""
     out = {}
     dups = []
-    suffix = {"seqs": ".fasta", "json": ".json", "db": ""}[plan["writer"]]
+    suffix = {"seqs": ".fasta", "json": ".json", "db": "", "tabular": ".tsv"}[plan["writer"]]
     for kind, members in (("completed", ds.completed), ("nc", ds.not_completed)):
         for m in members:
             uid = str(m.unique_id).split("/")[-1]
@@ -297,6 +302,7 @@ def run(plan, tier="quick", real_pool=False) -> RunResult:
     res.config = "parallel" if plan["parallel"] else "serial"
     idc = "" if plan["idclass"] == "plain" else f":{plan['idclass']}"
     wr = plan["writer"]
+    res.probe(f"writer:{wr}")
     replay = plan
     try:
         import cogent3.app.sqlite_data_store  # noqa: F401
@@ -317,7 +323,7 @@ def run(plan, tier="quick", real_pool=False) -> RunResult:
 
             io_loader = _io.load_unaligned(format="fasta", moltype="dna")
             _, names = build_app(plan, None, with_writer=False)
-            names_w = names + [{"seqs": "write_seqs", "json": "write_json", "db": "write_db"}[wr]]
+            names_w = names + [{"seqs": "write_seqs", "json": "write_json", "db": "write_db", "tabular": "write_tabular"}[wr]]
             for inp in plan["inputs"]:
                 stem = inp["stem"]
                 path = os.path.join(in_dir, f"{stem}.fasta")
@@ -578,7 +584,8 @@ def run(plan, tier="quick", real_pool=False) -> RunResult:
         p = predict(plan, inp, ([] if plan["input_form"] == "objects" else ["load_unaligned"]) +
                     (["min_length"] if plan["min_length"] else []) +
                     ["planned_any" if st.get("any") else "planned_func" if st.get("func") else ["planned", "planned2", "planned3"][k % 3]
-                     for k, st in enumerate(plan["steps"])] + ["writer"])
+                     for k, st in enumerate(plan["steps"])] +
+                    (["seqs_to_table"] if plan["writer"] == "tabular" else []) + ["writer"])
         outcome_pattern.append(f"{p[0][0]}{p[1] or ''}")
         res.probe(f"outcome:{p[1] or 'completed'}")
     order = "".join(str(i) for i in pool.delivered)
@@ -628,7 +635,7 @@ CROSS_HASHSEED = 240
 EVIDENCE = {
     "rule": (
         "run = 1-6 (quick) / 1-8 (thorough) input files with related identifiers, a composition load_unaligned "
-        "[+ min_length] + 0-3 planned steps + writer (write_seqs/write_json/write_db) with plan-chosen per-record "
+        "[+ min_length] + 0-3 planned steps (class-based, accepts-anything, function-based with mutable arguments) [+ seqs_to_table] + writer (write_seqs/write_json/write_db/write_tabular) with plan-chosen per-record "
         "outcomes (success, exception, None, FALSE NotCompleted, wrong type; malformed/empty/short input files), "
         "applied with apply_to or as_completed, serially or on the simulated pool (workers, cpu count, task durations, "
         "master service times, delivery choice among finished futures all plan-chosen). Non-trivial = more than one "
@@ -649,6 +656,6 @@ EVIDENCE = {
         "the source field of a failure caused by a wrong-typed intermediate value is not asserted (such a value carries no source)",
     ],
     "expected_probes": ["delivery-reordered", "several-finished-at-once", "outcome:ERROR", "outcome:BUG",
-                        "outcome:FALSE", "outcome:completed", "function-based-step-with-mutable-arguments"],
+                        "outcome:FALSE", "outcome:completed", "function-based-step-with-mutable-arguments", "writer:tabular", "writer:db", "writer:json", "writer:seqs"],
     "explanation": "C14 runs real apply_to/as_completed on a simulated pool and compares the store with per-input references.",
 }
